@@ -66,6 +66,50 @@ def pointer_root(v):
         return None, off
 
 
+def gemmx_text(kind, M, N, K, la, lb, lc, ld):
+    """one snax_gemmx operation: kind = gemm (C operand added, i32 output) | matmul_i8 | gemm_i8 (i8 output through a rescale)"""
+    has_c, out_el = kind.startswith("gemm"), ("i8" if kind.endswith("_i8") else "i32")
+    lays = [la, lb]
+    types = [f"memref<{M}x{K}xi8{lays[0]}>", f"memref<{K}x{N}xi8{lays[1]}>"] + ([f"memref<{M}x{N}xi32{lc}>"] if has_c else []) + [f"memref<{M}x{N}x{out_el}{ld}>"]
+    args = ["%a", "%b"] + (["%c"] if has_c else []) + ["%d"]
+    maps = ["affine_map<(m, n, k) -> (m, k)>", "affine_map<(m, n, k) -> (k, n)>"] + (["affine_map<(m, n, k) -> (m, n)>"] if has_c else []) + ["affine_map<(m, n, k) -> (m, n)>"]
+    bargs = ["%sa : !dart.stream<i8>", "%sb : !dart.stream<i8>"] + (["%sc : !dart.stream<i32>"] if has_c else []) + [f"%sd : !dart.stream<{out_el}>"]
+    body = ["""    %g0 = "dart.generic"(%sa, %sb, %z, %z) <{library_call = "snax_gemmx"}> ({
+^bb1(%x0 : i8, %x1 : i8, %x2 : i32, %x3 : i32, %x4 : i32):
+  %q = kernel.qmac %x0, %x1 zp_lhs : %x2 zp_rhs : %x3 : i8, i8, i32, i32 -> i32
+  dart.yield %q : i32
+}) : (!dart.stream<i8>, !dart.stream<i8>, i32, i32) -> !dart.stream<i32>"""]
+    last = "%g0"
+    if has_c:
+        body.append("""    %g1 = "dart.generic"(%g0, %sc) <{library_call = "snax_gemmx"}> ({
+^bb2(%y0 : i32, %y1 : i32, %y2 : i32):
+  %s = kernel.add %y0, %y1 : i32, i32 -> i32
+  dart.yield %s : i32
+}) : (!dart.stream<i32>, !dart.stream<i32>) -> !dart.stream<i32>""")
+        last = "%g1"
+    if out_el == "i8":
+        body.append(f"""    %g2 = "dart.generic"({last}) <{{library_call = "snax_gemmx"}}> ({{
+^bb3(%w0 : i32, %w1 : i8):
+  %r = "kernel.rescale"(%w0) {{input_zp = 0 : i32, output_zp = 0 : i32, multiplier = array<i32: 3>, shift = array<i8: 4>, min_int = -128 : i32, max_int = 127 : i32, double_round = false}} : (i32) -> i8
+  dart.yield %r : i8
+}}) : (!dart.stream<i32>) -> !dart.stream<i8>""")
+        last = "%g2"
+    body.append(f"    dart.yield {last} : !dart.stream<{out_el}>")
+    nl = "\n"
+    text = f"""builtin.module {{
+func.func public @f({", ".join(a + " : " + t for a, t in zip(args, types))}) {{
+  %z = arith.constant 0 : i32
+  "dart.operation"({", ".join(args)}) <{{patterns = [{", ".join(maps)}], accelerator = "snax_gemmx", operandSegmentSizes = array<i32: {len(args) - 1}, 1>}}> ({{
+  ^bb0({", ".join(bargs)}):
+{nl.join(body)}
+  }}) : ({", ".join(types)}) -> ()
+  func.return
+}}
+}}
+"""
+    return text
+
+
 def gen_case(rng, plain=False, fam=None):
     """plain: default (row-major) layouts on every operand and no set-memory-layout"""
     fam = fam or rng.choice(["alu", "alu", "gemm", "gemm", "gemm"])
@@ -126,8 +170,11 @@ func.func public @f(%a : {ts[0]}, %b : {ts[1]}, %c : {ts[2]}) {{
         if r < 0.6:
             st = rowmajor(shape)
             return f", strided<[{st[0]}, {st[1]}], offset: {rng.choice([0, 64])}>"
-        if r < 0.75:
+        if r < 0.68:
             return f", #tsl.tsl<[{a}, 8] -> ({64 * b}, 8), [{b}, 8] -> (64, 1){off}>"
+        if r < 0.78:
+            # the same 8x8 tiles stored column of tiles after column of tiles
+            return f", #tsl.tsl<[{a}, 8] -> (64, 8), [{b}, 8] -> ({64 * a}, 1){off}>"
         if r < 0.9 and a % 2 == 0:
             # the same function written with three tile levels
             return f", #tsl.tsl<[{a // 2}, 2, 8] -> ({128 * b}, {64 * b}, 8), [{b}, 8] -> (64, 1){off}>"
@@ -140,6 +187,17 @@ func.func public @f(%a : {ts[0]}, %b : {ts[1]}, %c : {ts[2]}) {{
         lays = ["", f", strided<[1, {K}]>", ""]
     elif rng.random() < 0.3:
         lays = ["", "", ""]
+    kind = "matmul" if plain else rng.choice(["matmul", "matmul", "gemm", "gemm", "gemm", "matmul_i8", "gemm_i8"])
+    if kind != "matmul":
+        # the other kernels of the accelerator: a C operand that is added (its layout is its own, not the output's), and / or an i8 output
+        has_c, out_el = kind.startswith("gemm"), ("i8" if kind.endswith("_i8") else "i32")
+        lc = lay(shapes[2], 4)
+        ld = lays[2] if out_el == "i32" else lay(shapes[2], 1)
+        for _ in range(4):
+            if has_c and lc == ld and rng.random() < 0.8:
+                lc = lay(shapes[2], 4)       # C and the output usually differ in layout
+        text = gemmx_text(kind, M, N, K, lays[0], lays[1], lc, ld)
+        return text, "snax_gemmx", (all(l == "" for l in lays) and rng.random() < 0.6)
     ts = [f"memref<{M}x{K}xi8{lays[0]}>", f"memref<{K}x{N}xi8{lays[1]}>", f"memref<{M}x{N}xi32{lays[2]}>"]
     text = f"""builtin.module {{
 func.func public @f(%a : {ts[0]}, %b : {ts[1]}, %c : {ts[2]}) {{
@@ -237,7 +295,7 @@ def run(pid: str, tier: str, seed: int, selftest=False, replay=None) -> int:
     rep = Report(pid, tier, seed)
     known = KnownFindings()
     rng = random.Random(seed)
-    n = 400 if tier == "quick" else 4000
+    n = 600 if tier == "quick" else 5000
     cases = []
     sources = []
     base = os.path.join(os.path.dirname(os.path.dirname(os.path.abspath(__file__))), "known", pid)
@@ -245,6 +303,22 @@ def run(pid: str, tier: str, seed: int, selftest=False, replay=None) -> int:
         txt = open(p).read()
         acc = "snax_gemmx" if "snax_gemmx" in txt else "snax_alu"
         sources.append((f"witness:{pid}/{os.path.basename(p)}", txt, acc, False))
+    # systematic: gemm / i8-output kernels with every pair of tile orders (rows of tiles / columns of tiles / rows with an offset) for the
+    # C operand and the output, for a few sizes - the operands of one operation do not have to share a layout
+    def tl(a, b, order, off=""):
+        return (f", #tsl.tsl<[{a}, 8] -> ({64 * b}, 8), [{b}, 8] -> (64, 1){off}>" if order == "rows"
+                else f", #tsl.tsl<[{a}, 8] -> (64, 8), [{b}, 8] -> ({64 * a}, 1){off}>")
+    for (M, N, K) in ((16, 16, 16), (16, 24, 8), (24, 16, 16)):
+        a, b, kk = M // 8, N // 8, K // 8
+        la = f", #tsl.tsl<[{a}, 8] -> ({64 * kk}, 8), [{kk}, 8] -> (64, 1)>"
+        lb = f", #tsl.tsl<[{kk}, 8] -> (64, 1), [{b}, 8] -> ({64 * kk}, 8)>"
+        opts = [tl(a, b, "rows"), tl(a, b, "cols"), tl(a, b, "rows", ", offset: 64")]
+        for kind in ("gemm", "gemm_i8", "matmul_i8"):
+            for qi, lc in enumerate(opts):
+                for qj, ld in enumerate(opts):
+                    if kind == "matmul_i8" and qi > 0:
+                        continue
+                    sources.append((f"sys:{kind}:{M}x{N}x{K}:{qi}{qj}", gemmx_text(kind, M, N, K, la, lb, lc, ld), "snax_gemmx", False))
     prev = {}
     for k in range(n):
         text, acc, setlayout = gen_case(rng)
